@@ -174,11 +174,11 @@ func init() {
 		Mutants: []Mutant{
 			{Name: "mark-dropped-uint8-bool", File: "fast/func1ret1.go", Old: "\n\t\t\t\tenv.MarkUsedByClosure()\n\t\t\t\treturn xr.ValueOf(func(arg0 uint8,\n\n\t\t\t\t) (ret0 bool,", New: "\n\t\t\t\treturn xr.ValueOf(func(arg0 uint8,\n\n\t\t\t\t) (ret0 bool,", Canary: true},
 			{Name: "free-dropped", File: "fast/func0ret1.go", Old: "env.freeEnv4Func()", New: "_ = env", Nth: 3, Canary: true},
-			{Name: "intaddress-mark-before-walk", File: "fast/address.go", Old: "\t\t\t\tfor i := 3; i < upn; i++ {\n\t\t\t\t\tenv = env.Outer\n\t\t\t\t}\n\n\t\t\t\tenv.IntAddressTaken = true\n\t\t\t\treturn (*float64)", New: "\t\t\t\tenv.IntAddressTaken = true\n\t\t\t\tfor i := 3; i < upn; i++ {\n\t\t\t\t\tenv = env.Outer\n\t\t\t\t}\n\n\t\t\t\treturn (*float64)"},
+			{Name: "intaddress-mark-before-walk", File: "fast/address.go", Old: "\t\t\t\t\tfor i := 3; i < upn; i++ {\n\t\t\t\t\t\tenv = env.Outer\n\t\t\t\t\t}\n\n\t\t\t\t\tenv.IntAddressTaken = true\n\t\t\t\t\treturn (*float64)", New: "\t\t\t\t\tenv.IntAddressTaken = true\n\t\t\t\t\tfor i := 3; i < upn; i++ {\n\t\t\t\t\t\tenv = env.Outer\n\t\t\t\t\t}\n\n\t\t\t\t\treturn (*float64)"},
 			{Name: "call0ret1-string-depth2", File: "fast/call0ret1.go", Old: "fun := env.Outer.Outer.Vals[funindex].Interface().(func() string)", New: "fun := env.Outer.Vals[funindex].Interface().(func() string)"},
 			{Name: "freeenv-ignores-closure-flag", File: "fast/compile.go", Old: "\tif env.UsedByClosure {\n\t\t// output.Debugf(\"freeEnv: used by closure, cannot reuse: %p %+v\", env, env)\n\t\treturn\n\t}", New: "\tif env.UsedByClosure && env.Outer == nil {\n\t\treturn\n\t}"},
 			{Name: "bool-result-read-from-arg-slot", File: "fast/func1ret1.go", Old: "ret0 = *(*bool)(unsafe.Pointer(&env.Ints[indexes[1]]))", New: "ret0 = *(*bool)(unsafe.Pointer(&env.Ints[indexes[0]]))", Nth: 9},
-			{Name: "result-read-after-free", File: "fast/func0ret1.go", Old: "ret0 = *(*int)(unsafe.Pointer(&env.Ints[indexes[0]]))\n\n\t\t\t\tenv.freeEnv4Func()", New: "env.freeEnv4Func()\n\t\t\t\tret0 = *(*int)(unsafe.Pointer(&env.Ints[indexes[0]]))\n"},
+			{Name: "result-read-after-free", File: "fast/func0ret1.go", Old: "\t\t\t\t\tret0 = resultfun(env)\n\t\t\t\t\tenv.freeEnv4Func()", New: "\t\t\t\t\tenv.freeEnv4Func()\n\t\t\t\t\tret0 = resultfun(env)", Nth: 2},
 		},
 	})
 	register(&PropDef{
